@@ -28,7 +28,7 @@ static U32 old32(U32 x) { return 0xA0000000u + x; }
 static void* body(void* a) {
     prog_t* p = (prog_t*)a;
     U32 eff = p->addr + p->off;
-    mc_yield();
+    /* thread start is the scheduling point before the (first) operation */
     if (p->kind == 'W') {
         U32 r;
         U64 hi = (U64)(0xB0000000u + eff) << 32;
